@@ -216,6 +216,25 @@ impl Oracle for Persisted {
                     self.tainted_until_write = true;
                     self.taints += 1;
                 }
+                // listed finding KF_UNTRACKED_LOST, evaluated on the memos as they are now: the
+                // callee may have started to read untracked state after the persisted caller last
+                // ran (the caller was only validated since)
+                for k in self.calls_last.keys() {
+                    if !persisted_key(prog, zero0, *k) || self.untracked_last.get(k).copied().unwrap_or(false) {
+                        continue;
+                    }
+                    let mut stack: Vec<LKey> = self.calls_last.get(k).map(|v| v.iter().copied().filter(|c| !persisted_key(prog, zero0, *c)).collect()).unwrap_or_default();
+                    let mut seen: BTreeSet<LKey> = BTreeSet::new();
+                    while let Some(c) = stack.pop() {
+                        if !seen.insert(c) {
+                            continue;
+                        }
+                        if self.untracked_last.get(&c).copied().unwrap_or(false) {
+                            self.untracked_lost = true;
+                        }
+                        stack.extend(self.calls_last.get(&c).cloned().unwrap_or_default());
+                    }
+                }
                 // keys whose *current* memos the serializer walks when it flattens the edges of a
                 // persisted memo that is not verified in the snapshot revision: its non-persisted
                 // callees and everything below them
